@@ -457,6 +457,11 @@ func (e *Engine) verifyFunc(fn *ssa.Function, spec *FuncSpec) (vc *VC, err error
 		targets = vc.modTargets(env, spec)
 	}
 	res, out, opc := vc.execFunc(fr, args, st, "true")
+	for _, as := range spec.Asserts {
+		if as.Callee != "" && !fr.matched[as] {
+			vc.unsup("contract clause refers to call %s#%d, which %s does not make: %s", as.Callee, as.Ordinal, fn, as.Cl.Src)
+		}
+	}
 	_ = res
 	_ = out
 	// postconditions and frame are checked at every return separately (simpler queries than on the merged exit state)
